@@ -296,6 +296,8 @@ class Lexer:
             )
         )
 
+        depth = len(self.path_stack)
+
         if carry:
             self.path_stack[-1].path.append(self.source[self.start : self.pos])
             self.start = self.pos
@@ -310,6 +312,8 @@ class Lexer:
             if c == ".":
                 if self.peek() == ".":  # probably a range expression delimiter
                     self.backup()
+                    if len(self.path_stack) > depth:
+                        self.error("unbalanced brackets")
                     return
 
                 self.ignore()
@@ -399,6 +403,8 @@ class Lexer:
                     self.error("expected a string, index or property name")
             else:
                 self.backup()
+                if len(self.path_stack) > depth:
+                    self.error("unbalanced brackets")
                 return
 
     def accept_string(self, *, quote: str) -> None:
